@@ -1,6 +1,7 @@
 // Extension commands of the correspondence driver: constraint sets.
 #include "driver_ext.h"
 #include <rbdl/Constraints.h>
+#include <rbdl/rbdl_utils.h>
 #include <cmath>
 #include <cstring>
 #include <algorithm>
@@ -130,6 +131,59 @@ bool run_ext(Ctx &C, const std::string &cmd, Toks &T, long seq) {
     bind(C); VectorNd q = T.vec(), qd = T.vec(); std::vector<SpatialVector> *fe = C.fext(T);
     bool r = isConstrainedSystemFullyActuated(m, q, qd, E(C).cs, true, fe);
     out.begin(seq, "fullact"); out.u(r ? 1 : 0); out.end(); return true;
+  }
+  if (cmd == "ik1") {
+    // ik1 nt {ref pt off}* Qstar Qinit step_tol lambda max_iter : targets are the point positions at Qstar plus an offset
+    bool step = (T.str() == "step"); std::string sfx = step ? "" : "_full";
+    long nt = T.integer(); std::vector<unsigned int> ids; std::vector<Vector3d> pts, offs, tps;
+    for (long k = 0; k < nt; k++) { ids.push_back(C.ref(T.str())); pts.push_back(T.v3()); offs.push_back(T.v3()); }
+    VectorNd qs = T.vec(), q0 = T.vec(); double stol = T.num(), lam = T.num(); long maxit = T.integer(); if (step) maxit = 1;
+    UpdateKinematicsCustom(m, &qs, NULL, NULL);
+    for (long k = 0; k < nt; k++) tps.push_back(CalcBodyToBaseCoordinates(m, qs, ids[k], pts[k], false) + offs[k]);
+    VectorNd qres = q0;
+    bool ok = InverseKinematics(m, q0, ids, pts, tps, qres, stol, lam, (unsigned) maxit);
+    out.begin(seq, ("ikok" + sfx).c_str()); out.u(ok ? 1 : 0); out.end(); out.line(seq, ("ikq" + sfx).c_str(), qres); return true;
+  }
+  if (cmd == "ik2") {
+    bool step = (T.str() == "step"); std::string sfx = step ? "" : "_full";
+    long nc = T.integer(); InverseKinematicsConstraintSet cs;
+    std::vector<std::string> kinds; std::vector<unsigned int> ids; std::vector<Vector3d> pts, offs; std::vector<double> wts;
+    for (long k = 0; k < nc; k++) { kinds.push_back(T.str()); ids.push_back(C.ref(T.str())); pts.push_back(T.v3()); offs.push_back(T.v3()); wts.push_back(T.num()); }
+    VectorNd qs = T.vec(), q0 = T.vec(); cs.step_tol = T.num(); cs.constraint_tol = T.num(); cs.lambda = T.num(); cs.max_steps = (unsigned) T.integer(); if (step) cs.max_steps = 1;
+    UpdateKinematicsCustom(m, &qs, NULL, NULL);
+    for (long k = 0; k < nc; k++) {
+      Vector3d tp = CalcBodyToBaseCoordinates(m, qs, ids[k], pts[k], false) + offs[k];
+      Matrix3d tO = CalcBodyWorldOrientation(m, qs, ids[k], false);
+      const std::string &kind = kinds[k]; float wt = (float) wts[k];
+      if (kind == "full") cs.AddFullConstraint(ids[k], pts[k], tp, tO, wt);
+      else if (kind == "orient") cs.AddOrientationConstraint(ids[k], tO, wt);
+      else if (kind == "pos") cs.AddPointConstraint(ids[k], pts[k], tp, wt);
+      else if (kind == "posxy") cs.AddPointConstraintXY(ids[k], pts[k], tp, wt);
+      else if (kind == "posz") cs.AddPointConstraintZ(ids[k], pts[k], tp, wt);
+      else { double mass; Vector3d com; Utils::CalcCenterOfMass(m, qs, VectorNd::Zero(m.qdot_size), NULL, mass, com, NULL, NULL, NULL, NULL, false);
+             cs.AddPointConstraintCoMXY(ids[k], com + offs[k], wt); }
+    }
+    VectorNd qres = q0;
+    bool ok = InverseKinematics(m, q0, cs, qres);
+    out.begin(seq, ("ikok" + sfx).c_str()); out.u(ok ? 1 : 0); out.end(); out.line(seq, ("ikq" + sfx).c_str(), qres);
+    out.begin(seq, ("ikerr" + sfx).c_str()); out.d(cs.error_norm); out.end();
+    if (!step) { out.begin(seq, "iksteps_full"); out.u(cs.num_steps); out.end(); } return true;
+  }
+  if (cmd == "asmq") {
+    bind(C); bool step = (T.str() == "step"); std::string sfx = step ? "" : "_full";
+    VectorNd q0 = T.vec(), wts = T.vec(); double tol = T.num(); long maxit = T.integer(); if (step) maxit = 1;
+    VectorNd q = q0;
+    try {
+      bool ok = CalcAssemblyQ(m, q0, E(C).cs, q, wts, tol, (unsigned) maxit);
+      out.begin(seq, ("asmok" + sfx).c_str()); out.u(ok ? 1 : 0); out.end(); out.line(seq, ("asmq" + sfx).c_str(), q);
+    } catch (Errors::RBDLError &e) { out.begin(seq, "status"); out.s("throw"); out.end(); }
+    return true;
+  }
+  if (cmd == "asmqd") {
+    bind(C); VectorNd q = T.vec(), qd0 = T.vec(), wts = T.vec(); VectorNd qd = VectorNd::Zero(m.qdot_size);
+    try { CalcAssemblyQDot(m, q, qd0, E(C).cs, qd, wts); out.line(seq, "asmqd", qd); }
+    catch (Errors::RBDLError &e) { out.begin(seq, "status"); out.s("throw"); out.end(); }
+    return true;
   }
   if (cmd == "imp") {
     bind(C); std::string meth = T.str(); VectorNd q = T.vec(), qdm = T.vec(), vp = T.vec(); ConstraintSet &cs = E(C).cs;
